@@ -46,6 +46,36 @@ def _consume_cfg(ctx, name, spec, pages, rows, variant="ok", invs="", props="", 
     return _cfg(ctx, name, t)
 
 
+class _Crashed(Exception):
+    """The test binary died inside the driver: recorded as a violation, the part's analysis is skipped."""
+
+
+def _drive(ctx, binary, test, env, timeout, part):
+    """Run one driver.  A process that dies with a Go panic / fatal error whose first repository frame on the crashing
+    goroutine is driver code (not the harness) is a violation (driver-crashed/<function>); any other death is exit 2."""
+    rc, out = vf.run_gotest(ctx, binary, test, env, timeout, check=False)
+    if re.search(r"^VFSUMMARY ", out, re.M) and "--- FAIL" not in out:
+        return out
+    if rc in (124, 137):
+        raise vf.Inconclusive("driver %s timed out\n%s" % (test, out[-3000:]))
+    m = re.search(r"^(fatal error: .*|panic: .*)$", out, re.M)
+    if m:
+        rest = out[m.end():]
+        g = re.search(r"^goroutine \d+ \[[^\]]*\]:\n((?:.+\n)+)", rest, re.M)
+        frames = re.findall(r"^(\S.*)\n\t(\S+\.go):(\d+)", g.group(1) if g else rest[:6000], re.M)
+        for fn, file, line in frames:
+            if "/repo/" in file and "zz_vf_" not in file:
+                fn = re.sub(r"\([^()]*\)$", "", fn.split("/")[-1]).replace("gocql.", "", 1)
+                ctx.violation("%s/driver-crashed/%s" % (part, fn),
+                              "the process died inside the driver while the %s sequences ran: %s at %s (%s:%s)" % (
+                                  part, m.group(1), fn, os.path.basename(file), line),
+                              dict(part=part, crash=out[m.start():m.start() + 4000]))
+                raise _Crashed()
+            if "zz_vf_" in file:
+                break
+    raise vf.Inconclusive("driver %s did not finish (rc=%s):\n%s" % (test, rc, out[-3000:]))
+
+
 def _summary(out, what):
     m = re.search(r"^VFSUMMARY (.*)$", out, re.M)
     if not m:
@@ -319,12 +349,10 @@ def _consume(ctx, pool, binary_f):
 
     binary = binary_f.result()
     nrand = 400 if quick else 6000
-    f_rep = pool.submit(vf.run_gotest, ctx, binary, "^TestVfX02ConsumeReplay$", {"VF_X02_PATHS": pp, "VF_X02_PAR": 4}, 1500)
-    f_rnd = pool.submit(vf.run_gotest, ctx, binary, "^TestVfX02ConsumeRandom$", {"VF_X02_RANDOM": nrand, "VF_X02_PAR": 4}, 1500)
-    rc1, out1 = f_rep.result()
-    rc2, out2 = f_rnd.result()
-    if "--- FAIL" in out1 or "--- FAIL" in out2:
-        raise vf.Inconclusive("consume driver failed:\n%s\n%s" % (out1[-2000:], out2[-2000:]))
+    f_rep = pool.submit(_drive, ctx, binary, "^TestVfX02ConsumeReplay$", {"VF_X02_PATHS": pp, "VF_X02_PAR": 4}, 1500, "consume")
+    f_rnd = pool.submit(_drive, ctx, binary, "^TestVfX02ConsumeRandom$", {"VF_X02_RANDOM": nrand, "VF_X02_PAR": 4}, 1500, "consume")
+    out1 = f_rep.result()
+    out2 = f_rnd.result()
     s_rep, s_rnd = _summary(out1, "consume replay"), _summary(out2, "consume random")
     ctx.log("consume replay: %s; random: %s" % (s_rep, s_rnd))
     rep = vf.read_ndjson(os.path.join(ctx.tmp, "x02_consume_replay.ndjson"))
@@ -555,12 +583,10 @@ def _life(ctx, pool, binary_f):
 
     binary = binary_f.result()
     nrand = 300 if quick else 5000
-    f_rep = pool.submit(vf.run_gotest, ctx, binary, "^TestVfX02LifeReplay$", {"VF_X02_PATHS": pp, "VF_X02_PAR": 4}, 2400)
-    f_rnd = pool.submit(vf.run_gotest, ctx, binary, "^TestVfX02LifeRandom$", {"VF_X02_RANDOM": nrand, "VF_X02_PAR": 4}, 2400)
-    rc1, out1 = f_rep.result()
-    rc2, out2 = f_rnd.result()
-    if "--- FAIL" in out1 or "--- FAIL" in out2:
-        raise vf.Inconclusive("life driver failed:\n%s\n%s" % (out1[-2000:], out2[-2000:]))
+    f_rep = pool.submit(_drive, ctx, binary, "^TestVfX02LifeReplay$", {"VF_X02_PATHS": pp, "VF_X02_PAR": 4}, 2400, "life")
+    f_rnd = pool.submit(_drive, ctx, binary, "^TestVfX02LifeRandom$", {"VF_X02_RANDOM": nrand, "VF_X02_PAR": 4}, 2400, "life")
+    out1 = f_rep.result()
+    out2 = f_rnd.result()
     s_rep, s_rnd = _summary(out1, "life replay"), _summary(out2, "life random")
     ctx.log("life replay: %s; random: %s" % (s_rep, s_rnd))
     if s_rep["executions"] == 0 or s_rnd["executions"] == 0:
@@ -633,9 +659,10 @@ def _replay(ctx, pool, binary_f):
             continue
         pp = os.path.join(ctx.tmp, "x02_replay_%s.ndjson" % part)
         vf.write_ndjson(pp, seqs[part])
-        rc, o = vf.run_gotest(ctx, binary, test, {"VF_X02_PATHS": pp, "VF_X02_PAR": 1}, 1500)
-        if "--- FAIL" in o:
-            raise vf.Inconclusive("replay driver failed:\n%s" % o[-2000:])
+        try:
+            _drive(ctx, binary, test, {"VF_X02_PATHS": pp, "VF_X02_PAR": 1}, 1500, part)
+        except _Crashed:
+            continue
         recs = vf.read_ndjson(os.path.join(ctx.tmp, out))
         shards, blocks = _shard(ctx, recs, 1, "replay_" + part)
         outs = [_monitor(ctx, mod, mod + ".cfg", shards[0], "replay_" + part)]
@@ -658,8 +685,19 @@ def run(ctx):
     parts = os.environ.get("VF_X02_PARTS", "consume,life").split(",")
     f_cons = pool.submit(_consume, ctx, pool, binary_f) if "consume" in parts else None
     f_life = pool.submit(_life, ctx, pool, binary_f) if "life" in parts else None
-    cons = f_cons.result() if f_cons else None
-    life = f_life.result() if f_life else None
+    cons = life = None
+    for nm, f in (("consume", f_cons), ("life", f_life)):
+        if f is None:
+            continue
+        try:
+            r = f.result()
+        except _Crashed:
+            r = None
+            ctx.notes.append("%s: the driver process crashed; see the violation" % nm)
+        if nm == "consume":
+            cons = r
+        else:
+            life = r
     pool.shutdown()
     states = sum((x or {}).get("tlc_states", 0) for x in (cons, life))
     trans = sum((x or {}).get("tlc_transitions", 0) for x in (cons, life))
